@@ -241,7 +241,9 @@ FIXED = [
 
 SWEEP_BASES = ['def e { salt: "s" splitters: u, v if t >= -1 and not ( u in ( 1 , "x" ) ) { return "A" weighted 1 , "B" weighted 2.5 } else if v != 3 { return 7 weighted 1 } else { return -1.5 weighted 1 } }',
                'def two_t { return "tt" weighted 10 }']
-SWEEP_CHARS = [chr(c) for c in range(0, 128)] + ["\x85", "\xa0", "\xad", "\u200b", "\u2028", "\ufeff", "\xb7", "\u037e", "\uff1a", "\U0001f600"]
+SWEEP_CHARS = [chr(c) for c in range(0, 128)] + ["\x85", "\xa0", "\xad", "\u200b", "\u2028", "\ufeff", "\xb7", "\u037e", "\uff1a", "\U0001f600",
+                                                     # lone surrogates (text read with errors="surrogateescape"): no token of the language contains one
+                                                     "\udcff", "\ud800", "\udc80\udc81"]
 
 
 def stray_char_sweep():
